@@ -1819,7 +1819,8 @@ enum Item {
     Decl(u8, Cand),
     Define(u32),
     Site(u8, Vec<ETy>, Vec<Option<Ty>>),
-    Helper(u32, u8, Vec<ETy>),
+    /// number, lookup mode, arguments of the call in the body, true = the body is a method of a struct template
+    Helper(u32, u8, Vec<ETy>, bool),
     Trigger(u32, bool),
 }
 
@@ -1827,6 +1828,8 @@ enum Item {
 enum SeqPath {
     Free,
     Method,
+    /// methods of `template<typename W> struct S`, every call `S<int> s; s.f(..)` from a function after the struct
+    TStruct,
     Intrinsic(String),
 }
 
@@ -1835,7 +1838,7 @@ fn show_item(i: &Item) -> String {
         Item::Decl(s, c) => format!("d~{}~{}", s, show_cand(c)),
         Item::Define(id) => format!("r~{}", id),
         Item::Site(m, a, t) => format!("c~{}~{}~{}", m, show_args(a), t.iter().map(show_targ).collect::<Vec<_>>().join("+")),
-        Item::Helper(j, m, a) => format!("h~{}~{}~{}", j, m, show_args(a)),
+        Item::Helper(j, m, a, st) => format!("{}~{}~{}~{}", if *st { "s" } else { "h" }, j, m, show_args(a)),
         Item::Trigger(j, z) => format!("t~{}~{}", j, if *z { "f" } else { "i" }),
     }
 }
@@ -1866,7 +1869,8 @@ fn parse_item(s: &str) -> Option<Item> {
             }
             Some(Item::Site(m.parse().ok().filter(|x| *x <= 3)?, parse_args(a)?, targs))
         }
-        ["h", j, m, a] => Some(Item::Helper(j.parse().ok()?, m.parse().ok().filter(|x| *x <= 3)?, parse_args(a)?)),
+        ["h", j, m, a] => Some(Item::Helper(j.parse().ok()?, m.parse().ok().filter(|x| *x <= 3)?, parse_args(a)?, false)),
+        ["s", j, m, a] => Some(Item::Helper(j.parse().ok()?, m.parse().ok().filter(|x| *x <= 3)?, parse_args(a)?, true)),
         ["t", j, "i"] => Some(Item::Trigger(j.parse().ok()?, false)),
         ["t", j, "f"] => Some(Item::Trigger(j.parse().ok()?, true)),
         _ => None,
@@ -1878,6 +1882,7 @@ fn show_seq(items: &[Item], path: &SeqPath) -> String {
     match path {
         SeqPath::Free => format!("C16.seq\t{}", body),
         SeqPath::Method => format!("C16.seq\t{}\tP=M", body),
+        SeqPath::TStruct => format!("C16.seq\t{}\tP=U", body),
         SeqPath::Intrinsic(n) => format!("C16.seq\t{}\tP=A.{}", body, n),
     }
 }
@@ -1886,6 +1891,7 @@ fn parse_seq_path(s: &str) -> Option<SeqPath> {
     match s {
         "" => Some(SeqPath::Free),
         "P=M" => Some(SeqPath::Method),
+        "P=U" => Some(SeqPath::TStruct),
         _ => s.strip_prefix("P=A.").map(|n| SeqPath::Intrinsic(n.to_string())),
     }
 }
@@ -1915,22 +1921,26 @@ fn seq_well_formed(items: &[Item], path: &SeqPath) -> bool {
             }
             Item::Define(id) => {
                 let plain = items.iter().any(|x| matches!(x, Item::Decl(_, c) if c.id == *id && c.tkinds.is_empty() && is_user(c)));
-                if *path == SeqPath::Method || !ids.contains(id) || !plain || defined.contains(id) {
+                if *path != SeqPath::Free && !matches!(path, SeqPath::Intrinsic(_)) {
+                    return false;
+                }
+                if !ids.contains(id) || !plain || defined.contains(id) {
                     return false;
                 }
                 defined.push(*id);
             }
             Item::Site(m, _, _) => {
-                let max = match path {
-                    SeqPath::Free => 3,
-                    SeqPath::Method => 1,
-                    SeqPath::Intrinsic(_) => 0,
+                let ok = match path {
+                    SeqPath::Free => *m <= 3,
+                    SeqPath::Method => *m <= 1,
+                    SeqPath::TStruct => *m == 1,
+                    SeqPath::Intrinsic(_) => *m == 0,
                 };
-                if *m > max {
+                if !ok {
                     return false;
                 }
             }
-            Item::Helper(j, _, _) => {
+            Item::Helper(j, _, _, _) => {
                 if *path != SeqPath::Free || helpers.contains(j) {
                     return false;
                 }
@@ -1950,7 +1960,7 @@ fn seq_well_formed(items: &[Item], path: &SeqPath) -> bool {
 /// in the scope the lookup reaches - the innermost scope that knows the name for an unqualified call, the named scope
 /// for a qualified one; every method of the struct.  None = no such scope knows the name.
 fn visible_at(items: &[Item], pos: usize, mode: u8, path: &SeqPath) -> Option<Vec<Cand>> {
-    let upto = if *path == SeqPath::Method { items.len() } else { pos };
+    let upto = if matches!(path, SeqPath::Method | SeqPath::TStruct) { items.len() } else { pos };
     let of = |scope: u8| -> Vec<Cand> {
         items[..upto]
             .iter()
@@ -2025,7 +2035,7 @@ fn seq_program(items: &[Item], include: &[bool], path: &SeqPath) -> Option<Strin
                 a.iter().for_each(|a| note(a.ty.layer));
                 t.iter().flatten().for_each(|t| note(t.layer));
             }
-            Item::Helper(_, _, a) => a.iter().for_each(|a| note(a.ty.layer)),
+            Item::Helper(_, _, a, _) => a.iter().for_each(|a| note(a.ty.layer)),
             _ => {}
         }
     }
@@ -2044,7 +2054,7 @@ fn seq_program(items: &[Item], include: &[bool], path: &SeqPath) -> Option<Strin
             }
         }
     }
-    let in_struct = *path == SeqPath::Method;
+    let in_struct = matches!(path, SeqPath::Method | SeqPath::TStruct);
     let wrap = |inside: bool, text: &str| if inside { format!("namespace N {{\n{}}}\n", text) } else { text.to_string() };
     let mut body = String::new(); // P=M: the members of the struct
     let mut after = String::new(); // P=M: what follows the struct
@@ -2092,7 +2102,8 @@ fn seq_program(items: &[Item], include: &[bool], path: &SeqPath) -> Option<Strin
                         body.push_str(&format!("void c{}() {{\n{}{}}}\n", k, locals, call("")));
                     } else {
                         after.push_str(&globals);
-                        after.push_str(&format!("void c{}() {{\n    S s;\n{}{}}}\n", k, locals, call("s.")));
+                        let ty = if *path == SeqPath::TStruct { "S<int>" } else { "S" };
+                        after.push_str(&format!("void c{}() {{\n    {} s;\n{}{}}}\n", k, ty, locals, call("s.")));
                     }
                 } else {
                     s.push_str(&globals);
@@ -2104,7 +2115,7 @@ fn seq_program(items: &[Item], include: &[bool], path: &SeqPath) -> Option<Strin
                     s.push_str(&wrap(*mode >= 2, &format!("void c{}() {{\n{}{}}}\n", k, locals, call(q))));
                 }
             }
-            Item::Helper(j, mode, args) => {
+            Item::Helper(j, mode, args, is_struct) => {
                 let (globals, locals, exprs) = seq_arg_exprs(args, &format!("h{}", j))?;
                 s.push_str(&globals);
                 let q = match mode {
@@ -2112,36 +2123,41 @@ fn seq_program(items: &[Item], include: &[bool], path: &SeqPath) -> Option<Strin
                     3 => "::",
                     _ => "",
                 };
-                let text = format!(
-                    "template<typename Z> void h{}(Z z) {{\n{}    {}{}({});\n}}\n",
-                    j,
-                    locals,
-                    q,
-                    fname,
-                    exprs.join(", ")
-                );
+                let text = if *is_struct {
+                    format!(
+                        "template<typename Z> struct H{} {{\nvoid hg{}() {{\n{}    {}{}({});\n}}\n}};\n",
+                        j,
+                        j,
+                        locals,
+                        q,
+                        fname,
+                        exprs.join(", ")
+                    )
+                } else {
+                    format!("template<typename Z> void h{}(Z z) {{\n{}    {}{}({});\n}}\n", j, locals, q, fname, exprs.join(", "))
+                };
                 s.push_str(&wrap(*mode >= 2, &text));
             }
             Item::Trigger(j, z) => {
                 if !include[k] {
                     continue;
                 }
-                let mode = items.iter().find_map(|x| match x {
-                    Item::Helper(j2, m, _) if j2 == j => Some(*m),
+                let (mode, is_struct) = items.iter().find_map(|x| match x {
+                    Item::Helper(j2, m, _, st) if j2 == j => Some((*m, *st)),
                     _ => None,
                 })?;
-                s.push_str(&format!(
-                    "void t{}() {{\n    {}h{}({});\n}}\n",
-                    k,
-                    if mode >= 2 { "N::" } else { "" },
-                    j,
-                    if *z { "0.0" } else { "0" }
-                ));
+                let ns = if mode >= 2 { "N::" } else { "" };
+                if is_struct {
+                    s.push_str(&format!("void t{}() {{\n    {}H{}<{}> x;\n    x.hg{}();\n}}\n", k, ns, j, if *z { "float" } else { "int" }, j));
+                } else {
+                    s.push_str(&format!("void t{}() {{\n    {}h{}({});\n}}\n", k, ns, j, if *z { "0.0" } else { "0" }));
+                }
             }
         }
     }
     if in_struct {
-        s.push_str(&format!("struct S {{\n{}}};\n{}", body, after));
+        let head = if *path == SeqPath::TStruct { "template<typename W> " } else { "" };
+        s.push_str(&format!("{}struct S {{\n{}}};\n{}", head, body, after));
     }
     Some(s)
 }
@@ -2200,7 +2216,9 @@ fn seq_read_accepted(m: &mut ir::Module, items: &[Item], include: &[bool], path:
                 out.push((k, o));
             }
             Item::Trigger(j, _) => {
-                let inst = function_named(m, &format!("t{}", k)).and_then(|t| call_in_function(m, t, &format!("h{}", j)));
+                let is_struct = items.iter().any(|x| matches!(x, Item::Helper(j2, _, _, true) if j2 == j));
+                let callee = if is_struct { format!("hg{}", j) } else { format!("h{}", j) };
+                let inst = function_named(m, &format!("t{}", k)).and_then(|t| call_in_function(m, t, &callee));
                 let o = match inst {
                     Some(x) if instances.contains(&x) => SiteObs::Cached,
                     Some(x) => {
@@ -2311,6 +2329,7 @@ impl Runner {
         let p = match path {
             SeqPath::Free => Path::Free,
             SeqPath::Method => Path::Method,
+            SeqPath::TStruct => Path::TStruct,
             SeqPath::Intrinsic(n) => Path::Intrinsic(n.clone()),
         };
         let opts = Opts { with_defs: false, path: p, targs: targs.to_vec(), form: 0 };
@@ -2370,7 +2389,7 @@ impl Runner {
                 Item::Site(m, a, t) => (*m, a.clone(), t.clone()),
                 Item::Trigger(j, z) => {
                     let Some((m, a)) = items.iter().find_map(|x| match x {
-                        Item::Helper(j2, m, a) if j2 == j => Some((*m, a.clone())),
+                        Item::Helper(j2, m, a, _) if j2 == j => Some((*m, a.clone())),
                         _ => None,
                     }) else {
                         continue;
@@ -2458,6 +2477,7 @@ impl Runner {
         self.hist.add(match path {
             SeqPath::Free => "seq:path-free+namespace",
             SeqPath::Method => "seq:path-method",
+            SeqPath::TStruct => "seq:path-method-of-struct-template",
             SeqPath::Intrinsic(_) => "seq:path-intrinsic+user",
         });
         for it in items {
@@ -2469,7 +2489,8 @@ impl Runner {
                 Item::Decl(..) => "seq-item:template-declaration-in-reopened-namespace",
                 Item::Define(_) => "seq-item:definition-of-a-declared-function",
                 Item::Site(..) => "seq-item:call-site",
-                Item::Helper(..) => "seq-item:template-with-a-call-in-its-body",
+                Item::Helper(_, _, _, false) => "seq-item:function-template-with-a-call-in-its-body",
+                Item::Helper(..) => "seq-item:struct-template-with-a-call-in-a-method-body",
                 Item::Trigger(..) => "seq-item:call-that-instantiates-the-helper",
             });
         }
@@ -3236,7 +3257,7 @@ pub fn run(args: &Args, out: &mut Out) {
         for _ in 0..rng.range(0, 2) {
             tuples.push(centre.iter().map(|c| random_arg(&mut rng, *c)).collect());
         }
-        let path = if kind == 9 { SeqPath::Method } else { SeqPath::Free };
+        let path = if kind == 9 { if i % 24 == 9 { SeqPath::TStruct } else { SeqPath::Method } } else { SeqPath::Free };
         let with_ns = matches!(kind, 5 | 6 | 7);
         let with_helpers = matches!(kind, 7 | 8) ;
         let explicit: Vec<Option<Ty>> = if matches!(kind, 4 | 5) && rng.chance(1, 5) { vec![Some(centre[0])] } else { Vec::new() };
@@ -3257,7 +3278,7 @@ pub fn run(args: &Args, out: &mut Out) {
                 for j in 0..rng.range(1, 2) as u32 {
                     let m = if with_ns { *rng.pick(&[0u8, 1, 2, 3]) } else { 0 };
                     helper_modes.push(m);
-                    items.push(Item::Helper(j, m, tuples[(j as usize) % tuples.len()].clone()));
+                    items.push(Item::Helper(j, m, tuples[(j as usize) % tuples.len()].clone(), rng.chance(1, 2)));
                 }
             }
             let last = di + 1 == cands.len();
@@ -3265,6 +3286,7 @@ pub fn run(args: &Args, out: &mut Out) {
                 for t in &tuples {
                     let mode = match path {
                         SeqPath::Method => rng.below(2) as u8,
+                        SeqPath::TStruct => 1,
                         _ if with_ns => rng.below(4) as u8,
                         _ => 0,
                     };
